@@ -194,13 +194,22 @@ def run_kani(harnesses, jobs=8, timeout=3600, playback=False):
     if playback:
         cmd += ['-Z', 'concrete-playback', '--concrete-playback=print']
     t0 = time.time()
+    # own process group: on timeout the whole tree (cargo-kani -> kani-driver -> cbmc, which can hold many GB) is killed
+    import signal
+    pr = subprocess.Popen(cmd, cwd=KWORK, env=_env(), stdout=subprocess.PIPE, stderr=subprocess.STDOUT, text=True,
+                          start_new_session=True)
     try:
-        p = subprocess.run(cmd, cwd=KWORK, env=_env(), stdout=subprocess.PIPE, stderr=subprocess.STDOUT, text=True,
-                           timeout=timeout)
-        out = p.stdout
-    except subprocess.TimeoutExpired as e:
-        out = (e.stdout or b'').decode() if isinstance(e.stdout, bytes) else (e.stdout or '')
-        out += '\nTIMEOUT'
+        out, _ = pr.communicate(timeout=timeout)
+    except subprocess.TimeoutExpired:
+        try:
+            os.killpg(pr.pid, signal.SIGKILL)
+        except OSError:
+            pass
+        try:
+            out, _ = pr.communicate(timeout=30)
+        except Exception:
+            out = ''
+        out = (out or '') + '\nTIMEOUT'
     wall = time.time() - t0
     res = {}
     thread_h = {}
